@@ -807,6 +807,44 @@ def check_pair(acc, h1, h2, method, cache=None, rev2=True):
     acc.outcome(("dist", fn, got if isinstance(got, str) else min(got, 12), cls))
 
 
+def check_pair_after_edit(acc, h1, h2, method):
+    """the first tree takes part in a distance call, is then changed in place (two tip names swapped, tip set
+    unchanged) and takes part in a distance call again: the second answer is that of the tree as it is now"""
+    from cogent3 import make_tree
+
+    m1 = tg.hierarchy_to_tree(h1, reverse=False)
+    m2 = tg.hierarchy_to_tree(h2, reverse=True)
+    tips = tg.tips(m1)
+    if len(tips) < 2 or set(tips) != set(tg.tips(m2)):
+        return
+    t1 = make_tree(tg.newick(m1, lengths=False))
+    t2 = make_tree(tg.newick(m2, lengths=False))
+    a, b = tips[0], tips[-1]
+    swap = {a: b, b: a}
+
+    def relabel(h):
+        return swap.get(h, h) if isinstance(h, str) else tuple(relabel(c) for c in h)
+
+    m1b = tg.hierarchy_to_tree(relabel(h1), reverse=False)
+    case = {"kind": "pair_after_edit", "h1": h1, "h2": h2, "method": method, "swapped": [a, b]}
+    acc.case(case, nontrivial=len(tips) >= 4)
+    first = real_distance(t1, t2, method)
+    real_distance(t2, t1, method)
+    try:
+        t1.reassign_names(swap)
+    except Exception as ex:  # noqa: BLE001
+        acc.fail(f"reassign_names raised {type(ex).__name__}", case, {"error": str(ex)[:200]})
+        return
+    want = model_distance(m1b, m2, method)
+    got = real_distance(t1, t2, method)
+    back = real_distance(t2, t1, method)
+    fn = method_class(method, m1)
+    acc.outcome(("dist-after-edit", fn, first == got))
+    if got != want or back != want:
+        acc.fail(f"tree_distance {fn}: answer for a tree that was changed in place after an earlier distance call differs from the independent computation",
+                 case, {"before_edit": first, "got": got, "got_reversed_arguments": back, "want": want})
+
+
 ALL_METHODS = list(ROOTED_ONLY) + list(UNROOTED_ONLY) + ["rf", "matching", None, "no_such_method"]
 
 
@@ -835,9 +873,12 @@ def run_pairs(spec, acc):
     for i, h1 in enumerate(hs):
         if i % spec["of"] != spec["chunk"]:
             continue
-        for h2 in others:
+        for j, h2 in enumerate(others):
             for method in methods:
                 check_pair(acc, h1, h2, method, cache)
+            if (i + j) % 3 == 0 and group != "othertips":
+                for method in ("rf", "matching"):
+                    check_pair_after_edit(acc, h1, h2, method)
     acc.transitions += 0
     acc.sample({"tips": n, "group": group, "trees": len(hs), "methods": [str(x) for x in methods]}, f"pairs-{group}")
 
@@ -925,6 +966,11 @@ def replay(case):
             return h if isinstance(h, str) else tuple(tup(c) for c in h)
 
         check_pair(acc, tup(case["h1"]), tup(case["h2"]), case["method"], rev2=case.get("rev2", True))
+    elif kind == "pair_after_edit":
+        def tup(h):
+            return h if isinstance(h, str) else tuple(tup(c) for c in h)
+
+        check_pair_after_edit(acc, tup(case["h1"]), tup(case["h2"]), case["method"])
     return [(sig, rec["cases"][0]["detail"]) for sig, rec in acc.failures.items()]
 
 
